@@ -58,6 +58,14 @@ func (ss sizesim) Gen(prop, tier string, ts *sim.Tapes) *Case {
 		cfg.InitialMmapSize = 8 << 20
 	}
 	p := work.GenParams{MaxSteps: 12, MaxOps: 30, Reopen: true, NoErrors: true, OnlyCommit: false}
+	if t.Chance(1, 3) {
+		// read transactions held across the transactions that hit the limit: the map
+		// must be large enough never to move (held readers on one task), and the
+		// growth chunk small enough for the limit to be reachable at all
+		cfg.InitialMmapSize = 64 << 20
+		cfg.AllocSize = 8 * ps
+		p.Readers = true
+	}
 	if tier == "thorough" {
 		p.MaxSteps, p.MaxOps = 30, 60
 	}
@@ -175,6 +183,9 @@ func (ss sizesim) Run(c *Case, dir string) *Outcome {
 			if writable {
 				e.CheckContent(st.Tx.End)
 				e.CheckFile(st.Tx.End)
+				for _, id := range sortedReaderIDs(e) {
+					e.CheckReader(id)
+				}
 				if e.LastErr != nil {
 					for _, v := range e.Viol {
 						if v.Prop != "C18" && v.Prop != c.Prop {
